@@ -74,13 +74,15 @@ def session_config(case):
         for k, op in enumerate(case["ops"]):
             fn = os.path.join(tmp, f"nl{k}.dat")
             ppp = np.array(cfg["ppp"])
+            # the documented default of the mask (all three axes periodic) is used where it applies: the argument is omitted
+            kw = {} if (list(cfg["ppp"]) == [1, 1, 1] and (k + len(frames)) % 2 == 0) else {"ppp": ppp}
             try:
                 if op["kind"] == "nn":
-                    Nnearests(snaps, N=op["n"], ppp=ppp, fnfile=fn)
+                    Nnearests(snaps, N=op["n"], fnfile=fn, **kw)
                 elif op["kind"] == "cut":
-                    cutoffneighbors(snaps, r_cut=op["rn"] / S, ppp=ppp, fnfile=fn)
+                    cutoffneighbors(snaps, r_cut=op["rn"] / S, fnfile=fn, **kw)
                 else:
-                    cutoffneighbors_particletype(snaps, r_cut=np.array(op["R"], dtype=float) / S, ppp=ppp, fnfile=fn)
+                    cutoffneighbors_particletype(snaps, r_cut=np.array(op["R"], dtype=float) / S, fnfile=fn, **kw)
             except Exception as e:
                 key = None
                 if op["kind"] == "nn" and op["n"] == n - 1:
